@@ -38,7 +38,7 @@ D2(A, B) == {<<a, b>> : a \in A, b \in B}
 D3(A, B, C) == {<<a, b, c>> : a \in A, b \in B, c \in C}
 Small == Inc(Even(3), 2..3)                        \* 0-2, 0-4, 2-4, 0-2-4
 EdgesQuick == D1(Inc(Even(5), 2..5)) \cup D2(Small, Small) \cup D3({<<0, 2, 4>>, <<0, 4>>}, {<<0, 2, 4>>}, {<<2, 4>>})
-EdgesThorough == D1(Inc(Even(6), 2..6)) \cup D2(Inc(Even(4), 2..4), Small) \cup D3(Small, Small, {<<0, 2, 4>>, <<0, 4>>})
+EdgesThorough == D1(Inc(Even(6), 2..6)) \cup D2(Inc(Even(4), 2..4), Small) \cup D3({<<0, 2, 4>>, <<0, 4>>}, {<<0, 2, 4>>, <<2, 4>>}, {<<0, 2, 4>>, <<0, 4>>})
 EdgesExport == D1(Inc(Even(6), 2..6)) \cup D2(Small, Small) \cup D3({<<0, 2, 4>>, <<0, 4>>}, {<<0, 2, 4>>}, {<<0, 2, 4>>, <<2, 4>>})
 EdgesHist == D1({<<0, 2>>, <<0, 2, 4, 6>>, <<0, 2, 8, 10, 12>>, <<0, 10, 12>>}) \cup D2(Small, {<<0, 2, 4>>, <<0, 6>>})
              \cup D3({<<0, 2, 4>>}, {<<0, 2, 4>>, <<0, 4>>}, {<<0, 2, 4>>})
